@@ -1,7 +1,7 @@
 (* C02 - signals in the span of the basis are reconstructed exactly.  Model: Recon/Predict.v. *)
 From Coq Require Import List Arith QArith Qcanon.
 Import ListNotations.
-From PS Require Import LA.Sums LA.Gram LA.GramProofs Recon.Predict Recon.PredictProofs.
+From PS Require Import LA.Sums LA.Gram LA.GramProofs LA.Dim Recon.Predict Recon.PredictProofs.
 Close Scope Qc_scope.
 Open Scope nat_scope.
 
@@ -19,17 +19,25 @@ Theorem C02_reconstruction_everywhere : forall m (B : nat -> nat -> Qc) a a0, (f
 Proof. exact full_matvec_ext. Qed.
 Print Assumptions C02_reconstruction_everywhere.
 
-(* Default (greedy QR) optimizer, partial: the ranked rows with positive residual are independent of the rows before them,
-   and once the largest residual is zero every row of B is a combination of the ranked rows - so a coefficient vector
-   annihilated by the ranked rows is annihilated by all of B.  What is NOT proved is the dimension count showing that a
-   full-column-rank B cannot keep positive residuals after n_basis_modes pivots; the correspondence checks it exactly. *)
-Theorem C02_greedy_rows_span_partial : forall m n B R ranked, resid_ok m n B R ranked ->
-  (forall a, a < n -> nrm2 m (R a) = 0%Qc) ->
-  forall d, (forall p, In p ranked -> dot m (B p) d = 0%Qc) -> forall a, a < n -> dot m (B a) d = 0%Qc.
-Proof.
-  intros m n B R ranked H Z d Hd a Ha.
-  pose proof (zero_residual_dependent m n B R ranked a H Ha (Z a Ha)) as L.
-  rewrite dot_comm. apply lincomb_orth with (gens := map B ranked); auto.
-  intros g Hg. apply in_map_iff in Hg. destruct Hg as [p [<- Hp]]. rewrite dot_comm. auto.
-Qed.
-Print Assumptions C02_greedy_rows_span_partial.
+(* Default (greedy pivoted-QR) optimizer: NO further assumption is needed.  If the basis matrix (n sensors x m modes)
+   has full column rank (trivial kernel), then any selection that starts with the m greedy picks - the default ranking
+   cut at any n_sensors >= n_basis_modes, whatever the order of the tail (SSPOR shuffles it) - has trivial kernel, so
+   C02_exact_recovery applies to it.  Proof: either all m pivots have positive residual, and m sequentially independent
+   vectors of Q^m admit no non-zero vector orthogonal to all of them (dimension lemma), or a pivot has zero residual
+   and every row of B already lies in the span of the rows ranked before it. *)
+Theorem C02_default_qr_selection_has_full_rank : forall m n B sel, m <= n ->
+  kernel_trivial n m B -> firstn m sel = rk_of m n B m ->
+  kernel_trivial (length sel) m (fun i => B (nth i sel 0)).
+Proof. exact default_qr_selection_kernel_trivial. Qed.
+Print Assumptions C02_default_qr_selection_has_full_rank.
+
+(* the rows named by rk_of are the first m entries of the model ranking after any k >= m steps *)
+Theorem C02_rk_of_is_the_ranking_prefix : forall m n B k, m <= k -> k <= n ->
+  firstn m (gram_greedy n k (gram m B)) = rk_of m n B m.
+Proof. exact greedy_firstn. Qed.
+Print Assumptions C02_rk_of_is_the_ranking_prefix.
+
+Example C02_example :
+  let B := of_rows [[q 3 1; q (-1) 1]; [q 0 1; q 0 1]; [q 1 1; q 4 1]; [q 6 1; q (-2) 1]; [q 2 1; q 2 1]] in
+  rk_of 2 5 B 2 = [3; 2] /\ firstn 2 (gram_greedy 5 2 (gram 2 B)) = [3; 2].
+Proof. split; vm_compute; reflexivity. Qed.
